@@ -147,6 +147,28 @@ impl Default for MemoryLayout {
 // kinds in MIR/lowering rather than recovering that distinction at runtime.
 const DIRECT_FUNCTION_REF_MAX_EXCLUSIVE: i64 = 1024;
 
+/// WASM global index of the allocator floor: the bump pointer is never rewound below it.
+/// Everything under the floor belongs to the pool of closure records handed to the host
+/// (see `generate_closure_pool_helpers`).
+const ALLOC_FLOOR_GLOBAL: u32 = 1;
+/// WASM global index of the first address that is rewound when a body (`dsp`, a scheduled
+/// task) returns. `-1` until the first body starts: allocations made by the global
+/// initialiser are never rewound.
+const VOLATILE_BASE_GLOBAL: u32 = 2;
+
+// Upvalue descriptors for `closure_retain` (low two bits: what the slot of a closure record
+// holds; see `WasmGenerator::upvalue_descriptor`).
+/// The slot holds a value that needs no copy (a number, an array handle, …).
+const UPVALUE_PLAIN: u32 = 0;
+/// The slot holds the address of the one-word cell of a captured variable.
+const UPVALUE_CELL: u32 = 1;
+/// The slot holds a closure (record address or bare function-table index).
+const UPVALUE_CLOSURE: u32 = 2;
+/// The slot holds the address of a tuple / record; its size in words is in bits 8 and up.
+const UPVALUE_AGGREGATE: u32 = 3;
+/// Flag of `UPVALUE_CELL`: the cell holds a closure.
+const UPVALUE_CELL_HOLDS_CLOSURE: u32 = 4;
+
 impl MemoryLayout {
     /// Allocate a linear memory offset for a global variable, or return existing one.
     fn get_or_alloc_global_offset(&mut self, global: &VPtr) -> u32 {
@@ -268,6 +290,9 @@ pub struct WasmGenerator {
     /// all closures are immediately "closed" and upvalues from alloc cells are shared by
     /// reference rather than copied by value.
     indirect_upvalues: HashMap<usize, Vec<bool>>,
+    /// Per-function upvalue descriptors (what each slot of the closure record holds), for the
+    /// helpers that move a scheduled closure out of the rewound region.
+    upvalue_descs: HashMap<usize, Vec<u32>>,
     /// MIR function index of the function currently being compiled in `generate_function_bodies`.
     current_mir_fn_idx: usize,
 }
@@ -430,6 +455,7 @@ impl WasmGenerator {
             use_runtime_alloc_for_current_function: false,
             call_type_cache: HashMap::new(),
             indirect_upvalues: HashMap::new(),
+            upvalue_descs: HashMap::new(),
             current_mir_fn_idx: 0,
         };
 
@@ -822,6 +848,10 @@ impl WasmGenerator {
         // Phase 2: Generate function bodies
         self.generate_function_bodies()?;
 
+        // Phase 2.1: Helpers that move a closure record handed to the host (`f@t`) out of
+        // the region that is rewound when the running body returns.
+        self.generate_closure_pool_helpers();
+
         // Phase 2.25: Generate per-function indirect-call adapters and
         // populate the function table with adapter function indices.
         self.generate_indirect_adapters()?;
@@ -846,7 +876,25 @@ impl WasmGenerator {
             },
             &wasm_encoder::ConstExpr::i32_const(self.mem_layout.alloc_offset as i32),
         );
-        self.alloc_ptr_global = 0; // first (and only) global
+        self.alloc_ptr_global = 0; // first global
+        // ALLOC_FLOOR_GLOBAL
+        self.global_section.global(
+            wasm_encoder::GlobalType {
+                val_type: wasm_encoder::ValType::I32,
+                mutable: true,
+                shared: false,
+            },
+            &wasm_encoder::ConstExpr::i32_const(0),
+        );
+        // VOLATILE_BASE_GLOBAL
+        self.global_section.global(
+            wasm_encoder::GlobalType {
+                val_type: wasm_encoder::ValType::I32,
+                mutable: true,
+                shared: false,
+            },
+            &wasm_encoder::ConstExpr::i32_const(-1),
+        );
 
         // Phase 4: Build and encode the module
         let module = self.build_module();
@@ -1164,6 +1212,7 @@ impl WasmGenerator {
             // Entry functions save the alloc pointer at start and restore before return,
             // preventing unbounded memory growth from per-sample Alloc instructions.
             if is_entry {
+                self.emit_mark_volatile_base(&mut wasm_func);
                 wasm_func.instruction(&W::GlobalGet(self.alloc_ptr_global));
                 wasm_func.instruction(&W::LocalSet(self.alloc_ptr_save_local));
             }
@@ -1175,8 +1224,7 @@ impl WasmGenerator {
             // even when control flow reaches function end without passing
             // through an explicit MIR Return/ReturnFeed path.
             if is_entry {
-                wasm_func.instruction(&W::LocalGet(self.alloc_ptr_save_local));
-                wasm_func.instruction(&W::GlobalSet(self.alloc_ptr_global));
+                self.emit_alloc_ptr_rewind(self.alloc_ptr_save_local, &mut wasm_func);
             }
 
             // Every WASM function body must end with an End instruction
@@ -2325,6 +2373,12 @@ impl WasmGenerator {
             wasm_encoder::ExportKind::Global,
             self.alloc_ptr_global,
         );
+        // The host must not rewind the allocator below the floor either.
+        self.export_section.export(
+            "__alloc_floor",
+            wasm_encoder::ExportKind::Global,
+            ALLOC_FLOOR_GLOBAL,
+        );
 
         Ok(())
     }
@@ -2866,6 +2920,12 @@ impl WasmGenerator {
                         memory_index: 0,
                     }));
                 }
+                let descs = upindexes
+                    .iter()
+                    .zip(is_indirect.iter())
+                    .map(|((_, ty), indirect)| Self::upvalue_descriptor(*indirect, *ty))
+                    .collect();
+                self.upvalue_descs.insert(mir_fn_idx, descs);
                 self.indirect_upvalues.insert(mir_fn_idx, is_indirect);
 
                 // A new closure instance starts with fresh state. The host keys closure state
@@ -2979,8 +3039,7 @@ impl WasmGenerator {
 
                 // Entry functions restore the alloc pointer before returning.
                 if self.is_entry_function {
-                    func.instruction(&W::LocalGet(self.alloc_ptr_save_local));
-                    func.instruction(&W::GlobalSet(self.alloc_ptr_global));
+                    self.emit_alloc_ptr_rewind(self.alloc_ptr_save_local, func);
                 }
 
                 // Push the return value onto the stack (ReturnFeed acts as Return)
@@ -3560,8 +3619,7 @@ impl WasmGenerator {
 
                 // Entry functions restore the alloc pointer before returning.
                 if self.is_entry_function {
-                    func.instruction(&W::LocalGet(self.alloc_ptr_save_local));
-                    func.instruction(&W::GlobalSet(self.alloc_ptr_global));
+                    self.emit_alloc_ptr_rewind(self.alloc_ptr_save_local, func);
                 }
 
                 if !is_unit {
@@ -4464,6 +4522,12 @@ impl WasmGenerator {
                 }
 
                 self.emit_value_load_typed(arg, expected, func);
+
+                // The host keeps the closure until the task runs: hand it a record that
+                // is not rewound together with the body that is running now.
+                if ext_name.as_str() == "_mimium_schedule_at" && arg_idx == 1 {
+                    func.instruction(&W::Call(self.closure_retain_fn_idx()));
+                }
             } else {
                 // prepend/prepend$arityN and append/append$arityN take aggregate element
                 // arguments as packed i64 words (tuple pointer/handle), not flattened fields.
@@ -4648,6 +4712,34 @@ impl WasmGenerator {
             .and_then(|v| v.get(idx))
             .copied()
             .unwrap_or(false)
+    }
+
+    /// What the slot of a closure record holds for an upvalue of type `ty`
+    /// (`indirect`: the slot holds the address of the variable's cell, see `MakeClosure`).
+    fn upvalue_descriptor(indirect: bool, ty: TypeNodeId) -> u32 {
+        fn is_function(ty: &Type) -> bool {
+            match ty {
+                Type::Function { .. } => true,
+                Type::Intermediate(cell) => {
+                    let tv = cell.read().unwrap();
+                    tv.parent
+                        .as_ref()
+                        .is_some_and(|parent| is_function(&parent.to_type()))
+                }
+                _ => false,
+            }
+        }
+        let holds_closure = is_function(&ty.to_type());
+        let words = ty.word_size() as u32;
+        if indirect {
+            UPVALUE_CELL | if holds_closure { UPVALUE_CELL_HOLDS_CLOSURE } else { 0 }
+        } else if words > 1 {
+            UPVALUE_AGGREGATE | (words << 8)
+        } else if holds_closure {
+            UPVALUE_CLOSURE
+        } else {
+            UPVALUE_PLAIN
+        }
     }
 
     /// Decide whether `Alloc(ty)` should be captured indirectly in closure slots.
@@ -4876,6 +4968,365 @@ impl WasmGenerator {
         func.instruction(&W::Call(self.rt.closure_state_pop));
     }
 
+    /// WASM function index of `closure_retain` (see `generate_closure_pool_helpers`).
+    /// The helpers follow the MIR functions directly, so the index is known while the
+    /// function bodies are generated.
+    fn closure_retain_fn_idx(&self) -> u32 {
+        self.num_imports + self.mir.functions.len() as u32 + 1
+    }
+
+    /// WASM function index of `closure_release`.
+    fn closure_release_fn_idx(&self) -> u32 {
+        self.num_imports + self.mir.functions.len() as u32 + 3
+    }
+
+    /// The first body that runs (`dsp` or a scheduled task) records where the rewound
+    /// region starts.
+    fn emit_mark_volatile_base(&self, func: &mut Function) {
+        use wasm_encoder::Instruction as W;
+        func.instruction(&W::GlobalGet(VOLATILE_BASE_GLOBAL));
+        func.instruction(&W::I32Const(-1));
+        func.instruction(&W::I32Eq);
+        func.instruction(&W::If(wasm_encoder::BlockType::Empty));
+        func.instruction(&W::GlobalGet(self.alloc_ptr_global));
+        func.instruction(&W::GlobalSet(VOLATILE_BASE_GLOBAL));
+        func.instruction(&W::End);
+    }
+
+    /// Rewind the bump allocator to the value saved in `saved_local`, but never below the
+    /// floor: the pool of closure records that are waiting in the host lives under it.
+    fn emit_alloc_ptr_rewind(&self, saved_local: u32, func: &mut Function) {
+        use wasm_encoder::Instruction as W;
+        func.instruction(&W::LocalGet(saved_local));
+        func.instruction(&W::GlobalGet(ALLOC_FLOOR_GLOBAL));
+        func.instruction(&W::LocalGet(saved_local));
+        func.instruction(&W::GlobalGet(ALLOC_FLOOR_GLOBAL));
+        func.instruction(&W::I32GtU);
+        func.instruction(&W::Select);
+        func.instruction(&W::GlobalSet(self.alloc_ptr_global));
+    }
+
+    /// Generate the helpers that keep a closure alive while the host holds its address.
+    ///
+    /// A closure record (`[fn_table_idx][upvalue words…]`) made inside `dsp` or inside a
+    /// scheduled task lives in the bump region that is rewound when that body returns.
+    /// `f@t` hands the record's address to the host, which calls it back samples later, so
+    /// the record — and what it refers to in the rewound region — must outlive the body:
+    ///
+    /// * `pool_alloc(words) -> addr` pops a block from the free list of that size or, when
+    ///   the list is empty, takes it from the bump allocator and raises the floor so that
+    ///   no rewind frees it. The pool only grows up to the peak number of pending tasks.
+    /// * `closure_retain(addr) -> addr'` (called on the closure argument of
+    ///   `_mimium_schedule_at`) copies a record of the rewound region into a pool block,
+    ///   together with what its upvalues refer to in that region: a captured variable
+    ///   that lives in a cell gets a cell of its own holding the current value (the
+    ///   variable is closed, as the VM does when the frame returns), a captured tuple or
+    ///   record is copied, a captured closure is retained the same way. A record that is
+    ///   reached again while it is being copied (the `letrec` self reference) resolves
+    ///   to its copy. Records made by the global initialiser are never rewound and are
+    ///   passed through unchanged.
+    /// * `pool_free(addr, words)` pushes a block on its free list.
+    /// * `closure_release(addr)` returns a copy and everything `closure_retain` allocated
+    ///   for it to the pool; the trampoline calls it after the task ran.
+    ///
+    /// A pool record is `[fn][upvalue words × n][owned × n]`: `owned[i]` is the pool block
+    /// allocated for upvalue `i` (0 if none), so that releasing does not depend on what the
+    /// task stored in its variables. A pool cell is `[value][owned closure copy or 0]`.
+    ///
+    /// Static data: a table `[upvalue count: i32][address of descriptors: i32]` indexed by
+    /// the function-table index, one descriptor word per upvalue (see
+    /// `upvalue_descriptor`), and one free-list head per block size.
+    fn generate_closure_pool_helpers(&mut self) {
+        use wasm_encoder::BlockType::Empty;
+        use wasm_encoder::Instruction as W;
+        use wasm_encoder::ValType::{I32, I64};
+        macro_rules! emit { ($f:expr; $($i:expr),* $(,)?) => { $( $f.instruction(&$i); )* } }
+        const WASM_PAGE_SHIFT: i32 = 16;
+        const WASM_PAGE_MASK: i32 = (1 << WASM_PAGE_SHIFT) - 1;
+        const COPYING: i64 = i64::MIN; // bit 63 of the function word: the record is being copied
+
+        let num_fns = self.mir.functions.len() as u32;
+        debug_assert_eq!(self.current_fn_idx, self.num_imports + num_fns);
+        let pool_alloc_idx = self.current_fn_idx;
+        let retain_idx = pool_alloc_idx + 1;
+        let pool_free_idx = pool_alloc_idx + 2;
+        let release_idx = pool_alloc_idx + 3;
+        debug_assert_eq!(retain_idx, self.closure_retain_fn_idx());
+        debug_assert_eq!(release_idx, self.closure_release_fn_idx());
+        self.current_fn_idx += 4;
+
+        // ---- static data ---------------------------------------------------------------
+        let descs: Vec<Vec<u32>> = self
+            .mir
+            .functions
+            .iter()
+            .enumerate()
+            .map(|(i, f)| {
+                let mut d = self.upvalue_descs.get(&i).cloned().unwrap_or_default();
+                d.resize(f.upindexes.len(), UPVALUE_PLAIN);
+                d
+            })
+            .collect();
+        let max_block_words = descs
+            .iter()
+            .flat_map(|d| d.iter().map(|w| w >> 8).chain([1 + 2 * d.len() as u32]))
+            .max()
+            .unwrap_or(1)
+            .max(2);
+        let table_base = self.mem_layout.alloc_offset.next_multiple_of(8);
+        let descs_base = table_base + num_fns * 8;
+        let mut table_bytes: Vec<u8> = Vec::new();
+        let mut desc_bytes: Vec<u8> = Vec::new();
+        descs.iter().for_each(|d| {
+            table_bytes.extend((d.len() as u32).to_le_bytes());
+            table_bytes.extend((descs_base + desc_bytes.len() as u32).to_le_bytes());
+            d.iter().for_each(|w| desc_bytes.extend(w.to_le_bytes()));
+        });
+        let heads_base = (descs_base + desc_bytes.len() as u32).next_multiple_of(8);
+        self.mem_layout.alloc_offset = (heads_base + (max_block_words + 1) * 4).next_multiple_of(8);
+        table_bytes.extend(desc_bytes);
+        if !table_bytes.is_empty() {
+            self.data_section.active(
+                0,
+                &wasm_encoder::ConstExpr::i32_const(table_base as i32),
+                table_bytes,
+            );
+        }
+
+        let m32 = |offset: u32| MemArg {
+            offset: offset as u64,
+            align: 2,
+            memory_index: 0,
+        };
+        let m64 = |offset: u32| MemArg {
+            offset: offset as u64,
+            align: 3,
+            memory_index: 0,
+        };
+        let alloc_ptr = self.alloc_ptr_global;
+        let n_fns = num_fns as i32;
+
+        // ---- pool_alloc(words: i32) -> i32 ---------------------------------------------
+        let ty = self.get_or_create_call_type(vec![I32], vec![I32]);
+        self.function_section.function(ty);
+        let mut f = Function::new([(2, I32)]);
+        let (words, block, end) = (0u32, 1u32, 2u32);
+        emit!(f;
+            // a non-empty free list gives its first block
+            W::LocalGet(words), W::I32Const(2), W::I32Shl, W::I32Load(m32(heads_base)), W::LocalTee(block),
+            W::If(Empty),
+                W::LocalGet(words), W::I32Const(2), W::I32Shl,
+                W::LocalGet(block), W::I32Load(m32(0)),
+                W::I32Store(m32(heads_base)),
+                W::LocalGet(block), W::Return,
+            W::End,
+            // otherwise take the block from the bump allocator (growing the memory if needed) ...
+            W::GlobalGet(alloc_ptr), W::LocalTee(block),
+            W::LocalGet(words), W::I32Const(3), W::I32Shl, W::I32Add, W::LocalSet(end),
+            W::LocalGet(end), W::MemorySize(0), W::I32Const(WASM_PAGE_SHIFT), W::I32Shl, W::I32GtU,
+            W::If(Empty),
+                W::LocalGet(end), W::MemorySize(0), W::I32Const(WASM_PAGE_SHIFT), W::I32Shl, W::I32Sub,
+                W::I32Const(WASM_PAGE_MASK), W::I32Add, W::I32Const(WASM_PAGE_SHIFT), W::I32ShrU,
+                W::MemoryGrow(0), W::I32Const(-1), W::I32Eq,
+                W::If(Empty), W::Unreachable, W::End,
+            W::End,
+            W::LocalGet(end), W::GlobalSet(alloc_ptr),
+            // ... and keep every later rewind above it.
+            W::LocalGet(end), W::GlobalGet(ALLOC_FLOOR_GLOBAL), W::I32GtU,
+            W::If(Empty), W::LocalGet(end), W::GlobalSet(ALLOC_FLOOR_GLOBAL), W::End,
+            W::LocalGet(block),
+            W::End,
+        );
+        self.code_section.function(&f);
+
+        // ---- closure_retain(addr: i64) -> i64 ------------------------------------------
+        let ty = self.get_or_create_call_type(vec![I64], vec![I64]);
+        self.function_section.function(ty);
+        let mut f = Function::new([(10, I32), (3, I64)]);
+        let addr = 0u32;
+        let (src, nup, descs_at, dst, i, desc, slot, ptr, blk, n) =
+            (1u32, 2u32, 3u32, 4u32, 5u32, 6u32, 7u32, 8u32, 9u32, 10u32);
+        let (fn_word, val, owned) = (11u32, 12u32, 13u32);
+        // `val` (a closure word) := what the copy should hold; `owned` := the pool record
+        // this slot owns (0 if `val` was not copied here).
+        let retain_child = |f: &mut Function| {
+            emit!(f;
+                W::I64Const(0), W::LocalSet(owned),
+                W::LocalGet(val), W::I32WrapI64, W::GlobalGet(VOLATILE_BASE_GLOBAL), W::I32GeU,
+                W::If(Empty),
+                    W::LocalGet(val), W::I32WrapI64, W::I64Load(m64(0)), W::I64Const(0), W::I64LtS,
+                    W::If(Empty),
+                        // being copied further up (`letrec`): refer to that copy, do not own it
+                        W::LocalGet(val), W::I32WrapI64, W::I64Load(m64(0)),
+                        W::I64Const(!COPYING), W::I64And, W::LocalSet(val),
+                    W::Else,
+                        W::LocalGet(val), W::Call(retain_idx), W::LocalTee(owned),
+                        W::LocalGet(val), W::I64Eq,
+                        W::If(Empty),
+                            W::I64Const(0), W::LocalSet(owned),
+                        W::Else,
+                            W::LocalGet(owned), W::LocalSet(val),
+                        W::End,
+                    W::End,
+                W::End,
+            );
+        };
+        emit!(f;
+            // Not in the rewound region (made by the global initialiser, or a bare
+            // function-table index): nothing to do.
+            W::LocalGet(addr), W::I32WrapI64, W::LocalTee(src),
+            W::GlobalGet(VOLATILE_BASE_GLOBAL), W::I32LtU,
+            W::If(Empty), W::LocalGet(addr), W::Return, W::End,
+            W::LocalGet(src), W::I64Load(m64(0)), W::LocalTee(fn_word),
+            W::I64Const(0), W::I64LtS,
+            W::If(Empty), W::LocalGet(fn_word), W::I64Const(!COPYING), W::I64And, W::Return, W::End,
+            W::LocalGet(fn_word), W::I32WrapI64, W::I32Const(n_fns), W::I32GeU,
+            W::If(Empty), W::LocalGet(addr), W::Return, W::End,
+            W::LocalGet(fn_word), W::I32WrapI64, W::I32Const(3), W::I32Shl, W::LocalTee(i),
+            W::I32Load(m32(table_base)), W::LocalSet(nup),
+            W::LocalGet(i), W::I32Load(m32(table_base + 4)), W::LocalSet(descs_at),
+            // dst = pool_alloc(1 + 2 * nup); copy the function word and the upvalue words
+            W::LocalGet(nup), W::I32Const(1), W::I32Shl, W::I32Const(1), W::I32Add,
+            W::Call(pool_alloc_idx), W::LocalSet(dst),
+            W::I32Const(0), W::LocalSet(i),
+            W::Loop(Empty),
+                W::LocalGet(dst), W::LocalGet(i), W::I32Const(3), W::I32Shl, W::I32Add,
+                W::LocalGet(src), W::LocalGet(i), W::I32Const(3), W::I32Shl, W::I32Add, W::I64Load(m64(0)),
+                W::I64Store(m64(0)),
+                W::LocalGet(i), W::I32Const(1), W::I32Add, W::LocalTee(i),
+                W::LocalGet(nup), W::I32LeU, W::BrIf(0),
+            W::End,
+            // mark the original while its upvalues are visited
+            W::LocalGet(src), W::LocalGet(dst), W::I64ExtendI32U, W::I64Const(COPYING), W::I64Or,
+            W::I64Store(m64(0)),
+            W::I32Const(0), W::LocalSet(i),
+            W::Block(Empty), W::Loop(Empty),
+                W::LocalGet(i), W::LocalGet(nup), W::I32GeU, W::BrIf(1),
+                W::LocalGet(dst), W::LocalGet(i), W::I32Const(3), W::I32Shl, W::I32Add, W::LocalSet(slot),
+                W::LocalGet(descs_at), W::LocalGet(i), W::I32Const(2), W::I32Shl, W::I32Add,
+                W::I32Load(m32(0)), W::LocalSet(desc),
+                W::I32Const(0), W::LocalSet(blk),
+                W::LocalGet(desc), W::I32Const(3), W::I32And, W::I32Const(UPVALUE_CELL as i32), W::I32Eq,
+                W::If(Empty),
+                    // a variable in a cell of the rewound region: close it
+                    W::LocalGet(slot), W::I64Load(m64(8)), W::I32WrapI64, W::LocalTee(ptr),
+                    W::GlobalGet(VOLATILE_BASE_GLOBAL), W::I32GeU,
+                    W::If(Empty),
+                        W::I32Const(2), W::Call(pool_alloc_idx), W::LocalSet(blk),
+                        W::LocalGet(ptr), W::I64Load(m64(0)), W::LocalSet(val),
+                        W::I64Const(0), W::LocalSet(owned),
+                        W::LocalGet(desc), W::I32Const(UPVALUE_CELL_HOLDS_CLOSURE as i32), W::I32And,
+                        W::If(Empty),
+        );
+        retain_child(&mut f);
+        emit!(f;
+                        W::End,
+                        W::LocalGet(blk), W::LocalGet(val), W::I64Store(m64(0)),
+                        W::LocalGet(blk), W::LocalGet(owned), W::I64Store(m64(8)),
+                        W::LocalGet(slot), W::LocalGet(blk), W::I64ExtendI32U, W::I64Store(m64(8)),
+                    W::End,
+                W::End,
+                W::LocalGet(desc), W::I32Const(3), W::I32And, W::I32Const(UPVALUE_CLOSURE as i32), W::I32Eq,
+                W::If(Empty),
+                    W::LocalGet(slot), W::I64Load(m64(8)), W::LocalSet(val),
+        );
+        retain_child(&mut f);
+        emit!(f;
+                    W::LocalGet(slot), W::LocalGet(val), W::I64Store(m64(8)),
+                    W::LocalGet(owned), W::I32WrapI64, W::LocalSet(blk),
+                W::End,
+                W::LocalGet(desc), W::I32Const(3), W::I32And, W::I32Const(UPVALUE_AGGREGATE as i32), W::I32Eq,
+                W::If(Empty),
+                    // a tuple / record of the rewound region: copy its words
+                    W::LocalGet(slot), W::I64Load(m64(8)), W::I32WrapI64, W::LocalTee(ptr),
+                    W::GlobalGet(VOLATILE_BASE_GLOBAL), W::I32GeU,
+                    W::If(Empty),
+                        W::LocalGet(desc), W::I32Const(8), W::I32ShrU, W::LocalTee(n),
+                        W::Call(pool_alloc_idx), W::LocalSet(blk),
+                        W::Loop(Empty),
+                            W::LocalGet(n), W::I32Const(1), W::I32Sub, W::LocalSet(n),
+                            W::LocalGet(blk), W::LocalGet(n), W::I32Const(3), W::I32Shl, W::I32Add,
+                            W::LocalGet(ptr), W::LocalGet(n), W::I32Const(3), W::I32Shl, W::I32Add, W::I64Load(m64(0)),
+                            W::I64Store(m64(0)),
+                            W::LocalGet(n), W::BrIf(0),
+                        W::End,
+                        W::LocalGet(slot), W::LocalGet(blk), W::I64ExtendI32U, W::I64Store(m64(8)),
+                    W::End,
+                W::End,
+                // owned[i] = blk
+                W::LocalGet(slot), W::LocalGet(nup), W::I32Const(3), W::I32Shl, W::I32Add,
+                W::LocalGet(blk), W::I64ExtendI32U, W::I64Store(m64(8)),
+                W::LocalGet(i), W::I32Const(1), W::I32Add, W::LocalSet(i),
+                W::Br(0),
+            W::End, W::End,
+            W::LocalGet(src), W::LocalGet(fn_word), W::I64Store(m64(0)),
+            // The block may have held another closure before: the copy starts with the state
+            // of a new closure.
+            W::LocalGet(dst), W::I64ExtendI32U, W::Call(self.rt.closure_state_init),
+            W::LocalGet(dst), W::I64ExtendI32U,
+            W::End,
+        );
+        self.code_section.function(&f);
+
+        // ---- pool_free(block: i32, words: i32) -----------------------------------------
+        let ty = self.get_or_create_call_type(vec![I32, I32], vec![]);
+        self.function_section.function(ty);
+        let mut f = Function::new([]);
+        let (block, words) = (0u32, 1u32);
+        emit!(f;
+            W::LocalGet(block),
+            W::LocalGet(words), W::I32Const(2), W::I32Shl, W::I32Load(m32(heads_base)),
+            W::I32Store(m32(0)),
+            W::LocalGet(words), W::I32Const(2), W::I32Shl, W::LocalGet(block), W::I32Store(m32(heads_base)),
+            W::End,
+        );
+        self.code_section.function(&f);
+
+        // ---- closure_release(record: i32) ----------------------------------------------
+        let ty = self.get_or_create_call_type(vec![I32], vec![]);
+        self.function_section.function(ty);
+        let mut f = Function::new([(6, I32)]);
+        let (rec, nup, descs_at, i, desc, blk, tmp) = (0u32, 1u32, 2u32, 3u32, 4u32, 5u32, 6u32);
+        emit!(f;
+            W::LocalGet(rec), W::I64Load(m64(0)), W::I32WrapI64, W::LocalTee(tmp),
+            W::I32Const(n_fns), W::I32GeU,
+            W::If(Empty), W::Return, W::End,
+            W::LocalGet(tmp), W::I32Const(3), W::I32Shl, W::LocalTee(tmp),
+            W::I32Load(m32(table_base)), W::LocalSet(nup),
+            W::LocalGet(tmp), W::I32Load(m32(table_base + 4)), W::LocalSet(descs_at),
+            W::I32Const(0), W::LocalSet(i),
+            W::Block(Empty), W::Loop(Empty),
+                W::LocalGet(i), W::LocalGet(nup), W::I32GeU, W::BrIf(1),
+                // blk = owned[i]
+                W::LocalGet(rec), W::LocalGet(i), W::LocalGet(nup), W::I32Add, W::I32Const(3), W::I32Shl, W::I32Add,
+                W::I64Load(m64(8)), W::I32WrapI64, W::LocalTee(blk),
+                W::If(Empty),
+                    W::LocalGet(descs_at), W::LocalGet(i), W::I32Const(2), W::I32Shl, W::I32Add,
+                    W::I32Load(m32(0)), W::LocalSet(desc),
+                    W::LocalGet(desc), W::I32Const(3), W::I32And, W::I32Const(UPVALUE_CELL as i32), W::I32Eq,
+                    W::If(Empty),
+                        W::LocalGet(blk), W::I64Load(m64(8)), W::I32WrapI64, W::LocalTee(tmp),
+                        W::If(Empty), W::LocalGet(tmp), W::Call(release_idx), W::End,
+                        W::LocalGet(blk), W::I32Const(2), W::Call(pool_free_idx),
+                    W::End,
+                    W::LocalGet(desc), W::I32Const(3), W::I32And, W::I32Const(UPVALUE_CLOSURE as i32), W::I32Eq,
+                    W::If(Empty), W::LocalGet(blk), W::Call(release_idx), W::End,
+                    W::LocalGet(desc), W::I32Const(3), W::I32And, W::I32Const(UPVALUE_AGGREGATE as i32), W::I32Eq,
+                    W::If(Empty),
+                        W::LocalGet(blk), W::LocalGet(desc), W::I32Const(8), W::I32ShrU, W::Call(pool_free_idx),
+                    W::End,
+                W::End,
+                W::LocalGet(i), W::I32Const(1), W::I32Add, W::LocalSet(i),
+                W::Br(0),
+            W::End, W::End,
+            W::LocalGet(rec),
+            W::LocalGet(nup), W::I32Const(1), W::I32Shl, W::I32Const(1), W::I32Add,
+            W::Call(pool_free_idx),
+            W::End,
+        );
+        self.code_section.function(&f);
+    }
+
     /// Generate an exported WASM trampoline function `_mimium_exec_closure_void`.
     ///
     /// This function takes a single `i64` argument (the closure address in
@@ -4924,6 +5375,7 @@ impl WasmGenerator {
 
         // Save alloc pointer so that temporary Alloc instructions inside
         // the scheduled closure do not cause unbounded memory growth.
+        self.emit_mark_volatile_base(&mut func);
         func.instruction(&W::GlobalGet(self.alloc_ptr_global));
         func.instruction(&W::LocalSet(local_saved_alloc_ptr));
 
@@ -4966,8 +5418,18 @@ impl WasmGenerator {
 
         // Restore alloc pointer — reclaim temporary allocations made by
         // the scheduled closure body.
-        func.instruction(&W::LocalGet(local_saved_alloc_ptr));
-        func.instruction(&W::GlobalSet(self.alloc_ptr_global));
+        self.emit_alloc_ptr_rewind(local_saved_alloc_ptr, &mut func);
+
+        // The task ran: a record that `closure_retain` took from the pool goes back to it.
+        func.instruction(&W::LocalGet(param_closure_addr));
+        func.instruction(&W::I32WrapI64);
+        func.instruction(&W::GlobalGet(VOLATILE_BASE_GLOBAL));
+        func.instruction(&W::I32GeU);
+        func.instruction(&W::If(wasm_encoder::BlockType::Empty));
+        func.instruction(&W::LocalGet(param_closure_addr));
+        func.instruction(&W::I32WrapI64);
+        func.instruction(&W::Call(self.closure_release_fn_idx()));
+        func.instruction(&W::End);
 
         // closure_state_pop()
         func.instruction(&W::Call(self.rt.closure_state_pop));
